@@ -47,7 +47,7 @@ static uint64_t do_vf(const buf_t *s,uint64_t seed,int mode){
     if(g_poison>=0) dirty_stack(g_poison);
     if(mode==1) rs= rng_chance(&r,0.5)?ov_pcm_seek(&vf,p):ov_time_seek_page(&vf,(double)p/44100.0);
     else if(i%7==3){ /* a time-based lapped seek from a handle that sits unprimed at the end of the data (nothing to lap from: the lap buffer is all there is) */
-      double tt=ov_time_total(&vf,-1)*((double)(p%1000)/1000.0); ov_raw_seek(&vf,(ogg_int64_t)s->n-1); rs= (i&8)?ov_time_seek_lap(&vf,tt):ov_time_seek_page_lap(&vf,tt); }
+      double tt=ov_time_total(&vf,-1)*((double)(p%1000)/1000.0); if(T>200) ov_pcm_seek(&vf,T-100); /* be inside the last link already, so that the byte seek keeps the (then unprimed) decoder */ int r0=ov_raw_seek(&vf,(ogg_int64_t)s->n-1); rs= (i&8)?ov_time_seek_lap(&vf,tt):ov_time_seek_page_lap(&vf,tt); if(vh_trace) fprintf(stderr,"unprimed-eof lapped time seek: raw_seek %d, lapped seek(%.4f) %d, tell %lld\n",r0,tt,rs,(long long)ov_pcm_tell(&vf)); }
     else rs= rng_chance(&r,0.5)?ov_pcm_seek_lap(&vf,p):ov_raw_seek_lap(&vf,rng_range(&r,0,(long)s->n));
     h=fnv1a(&rs,sizeof rs,h); ogg_int64_t t=ov_pcm_tell(&vf); h=fnv1a(&t,sizeof t,h);
     char buf[4096]; long g=ov_read(&vf,buf,sizeof buf,0,2,1,&bs); if(g>0) h=fnv1a(buf,g,h);
@@ -55,6 +55,21 @@ static uint64_t do_vf(const buf_t *s,uint64_t seed,int mode){
   }
   ov_clear(&vf);
   return h;
+}
+/* a time-based lapped seek from a handle that was moved, by a byte seek, to the very end of its (single) link: the decoder is still set up but unprimed, so the lap
+   buffer is all the "old audio" there is */
+static uint64_t do_unprimed_lap(const buf_t *s,uint64_t seed){
+  OggVorbis_File vf; memsrc_t ms; uint64_t h=0; float **pcm; int bs; memsrc_init(&ms,s->p,s->n,1);
+  if(ov_open_callbacks(&ms,&vf,NULL,0,memsrc_cb(&ms))) return 0x7777;
+  for(int k=0;k<3;k++) ov_read_float(&vf,&pcm,1024,&bs);
+  for(int v=0;v<2;v++){
+    if(g_poison>=0) dirty_stack(g_poison);
+    int r0=ov_raw_seek(&vf,ov_raw_total(&vf,-1)-1); double tt=ov_time_total(&vf,-1)*(0.2+0.5*(double)(seed%100)/100.0);
+    int rs= v? ov_time_seek_page_lap(&vf,tt):ov_time_seek_lap(&vf,tt); h=fnv1a(&r0,sizeof r0,h); h=fnv1a(&rs,sizeof rs,h);
+    if(vh_trace) fprintf(stderr,"unprimed lapped time seek %d: raw_seek %d lapped %d tell %lld\n",v,r0,rs,(long long)ov_pcm_tell(&vf));
+    long got=0; while(got<3000){ long g=ov_read_float(&vf,&pcm,(int)(3000-got),&bs); if(g<=0) break; int ch=ov_info(&vf,bs)->channels; for(int c=0;c<ch;c++) h=fnv1a(pcm[c],sizeof(float)*g,h); got+=g; }
+  }
+  ov_clear(&vf); return h;
 }
 static uint64_t do_headers(uint64_t seed){
   vorbis_info vi; vorbis_comment vc; vorbis_dsp_state vd; ogg_packet a,b,c; uint64_t h=0; rng_t r; rng_seed(&r,seed,0x181,0);
@@ -76,7 +91,7 @@ static uint64_t pipeline(int kind,uint64_t seed){
   case 5: return do_pktdecode(&g_pk);
   case 6: return do_vf(&g_chain,seed,0);
   case 7: return do_vf(&g_chain,seed,1);
-  case 8: return do_vf(&g_chain,seed,2);
+  case 8: { uint64_t h=do_vf(&g_chain,seed,2), x=do_unprimed_lap(&g_single,seed); return fnv1a(&x,8,h); }
   case 9: return do_vf(&g_single,seed,3);
   case 10: return do_pktdecode(&g_model);
   case 11: return do_headers(seed);
